@@ -1,208 +1,7 @@
-import Ptn.C05.Model
-import Ptn.C05.Lemmas
-/-! Property theorems for C05: signed durations of the TDVP schedules.
-
-Units: durations are integers in half steps (`2` = `+dt`).  `segs = [(uᵢ, hᵢ)]`, `last = u_{m-1}`.
-Hypotheses used:
-* `hnd : (nodes segs last).Nodup` — the update path visits every node once (C17);
-* `hadj : s.2 = last` for the last segment `s` — the last two nodes of the path are adjacent (C17).
-The segments `{uᵢ, hᵢ}` are exactly the tree edges, each once (C17: the next hop of `uᵢ` is its
-parent in the tree re-rooted at `last`); the theorems are stated per segment edge via `edgeCount`,
-so with that fact "every tree edge" gets the stated total. -/
-namespace Ptn.C05
-
-/-- The nodes of the sweep in update order. -/
-def nodes (segs : List Seg) (last : Nat) : List Nat := segs.map Prod.fst ++ [last]
-
-private theorem indicator_nodes (segs : List Seg) (last v : Nat) (c : Int) :
-    (segs.map fun s => if s.1 = v then c else 0).sum + (if last = v then c else 0) =
-      ((nodes segs last).map fun x => if x = v then c else 0).sum := by
-  simp [nodes, List.sum_append, Function.comp_def]
-
-/-! ### First-order one-site -/
-
-/-- Every node of the sweep is evolved for `+dt` in total. -/
-theorem first_site_total (segs : List Seg) (last v : Nat) (hnd : (nodes segs last).Nodup)
-    (hv : v ∈ nodes segs last) : siteTotal v (first segs last) = 2 := by
-  have h := indicator_nodes segs last v 2
-  rw [sum_indicator_mem _ v 2 hnd hv] at h
-  simp only [siteTotal, first, tot_append, tot_flatMap, tot_cons, tot_nil, siteW]
-  simpa using h
-
-/-- Every segment edge is evolved for `-dt` in total (per occurrence among the segments). -/
-theorem first_link_total (segs : List Seg) (last a b : Nat) :
-    linkTotal a b (first segs last) = -2 * edgeCount a b segs := by
-  simp only [linkTotal, first, tot_append, tot_flatMap, tot_cons, tot_nil, linkW, edgeCount]
-  rw [← sum_map_mul_const]
-  simp only [Int.zero_add, Int.add_zero]
-  congr 1
-  apply List.map_congr_left
-  intro s _
-  split <;> simp
-
-/-- The signed durations of one step sum to `dt`. -/
-theorem first_sum (segs : List Seg) (last : Nat) : durTotal (first segs last) = 2 := by
-  simp only [durTotal, first, tot_append, tot_flatMap, tot_cons, tot_nil, Ev.dur]
-  have : (segs.map fun _ => ((2 : Int) + ((-2) + 0))).sum = 0 := by
-    rw [sum_map_const]; simp
-  rw [this]; rfl
-
-/-! ### Second-order one-site -/
-
-theorem second_defined (init : List Seg) (s : Seg) (last : Nat) :
-    second (init ++ [s]) last = some
-      ((init ++ [s]).flatMap (fun s => [Ev.site s.1 1, Ev.link s.1 s.2 (-1)])
-        ++ [Ev.site last 2]
-        ++ [Ev.link last s.1 (-1), Ev.site s.1 1]
-        ++ init.reverse.flatMap (fun t => [Ev.link t.2 t.1 (-1), Ev.site t.1 1])) := by
-  simp [second]
-
-theorem second_site_total (init : List Seg) (s : Seg) (last v : Nat)
-    (hnd : (nodes (init ++ [s]) last).Nodup) (hv : v ∈ nodes (init ++ [s]) last) :
-    ∃ tr, second (init ++ [s]) last = some tr ∧ siteTotal v tr = 2 := by
-  refine ⟨_, second_defined init s last, ?_⟩
-  have h := indicator_nodes (init ++ [s]) last v 2
-  rw [sum_indicator_mem _ v 2 hnd hv] at h
-  simp only [siteTotal, tot_append, tot_flatMap, tot_cons, tot_nil, siteW, sum_map_reverse]
-  simp only [List.map_append, List.sum_append, List.map_cons, List.map_nil, List.sum_cons,
-    List.sum_nil] at h ⊢
-  have e1 : (init.map fun s => (if s.1 = v then (2 : Int) else 0)).sum =
-      (init.map fun s => (if s.1 = v then (1 : Int) else 0) + 0).sum +
-      (init.map fun s => (0 : Int) + ((if s.1 = v then 1 else 0) + 0)).sum := by
-    rw [← sum_map_add]
-    congr 1
-    apply List.map_congr_left
-    intro t _
-    split <;> simp
-  rw [e1] at h
-  by_cases h1 : s.1 = v <;> by_cases h2 : last = v <;> simp [h1, h2] at h ⊢ <;> omega
-
-theorem second_link_total (init : List Seg) (s : Seg) (last a b : Nat) (hadj : s.2 = last) :
-    ∃ tr, second (init ++ [s]) last = some tr ∧
-      linkTotal a b tr = -2 * edgeCount a b (init ++ [s]) := by
-  refine ⟨_, second_defined init s last, ?_⟩
-  simp only [linkTotal, tot_append, tot_flatMap, tot_cons, tot_nil, linkW, edgeCount,
-    sum_map_reverse]
-  simp only [List.map_append, List.sum_append, List.map_cons, List.map_nil, List.sum_cons,
-    List.sum_nil]
-  have e1 : (init.map fun t => (0 : Int) + ((if sameEdge a b t.1 t.2 = true then -1 else 0) + 0)).sum
-      = -1 * (init.map fun t => if sameEdge a b t.1 t.2 = true then (1 : Int) else 0).sum :=
-    sum_map_scale _ _ (-1) init (by
-      intro t; by_cases h : sameEdge a b t.1 t.2 = true <;> simp [h])
-  have e2 : (init.map fun t => (if sameEdge a b t.2 t.1 = true then (-1 : Int) else 0) + (0 + 0)).sum
-      = -1 * (init.map fun t => if sameEdge a b t.1 t.2 = true then (1 : Int) else 0).sum :=
-    sum_map_scale _ _ (-1) init (by
-      intro t; rw [sameEdge_symm a b t.2 t.1]
-      by_cases h : sameEdge a b t.1 t.2 = true <;> simp [h])
-  rw [e1, e2]
-  rw [← hadj, sameEdge_symm a b s.2 s.1]
-  by_cases h : sameEdge a b s.1 s.2 = true <;> simp [h] <;> omega
-
-theorem second_sum (init : List Seg) (s : Seg) (last : Nat) :
-    ∃ tr, second (init ++ [s]) last = some tr ∧ durTotal tr = 2 := by
-  refine ⟨_, second_defined init s last, ?_⟩
-  simp only [durTotal, tot_append, tot_flatMap, tot_cons, tot_nil, Ev.dur, sum_map_reverse]
-  simp only [List.map_append, List.sum_append, List.map_cons, List.map_nil, List.sum_cons,
-    List.sum_nil]
-  have z1 : (init.map fun _ => ((1 : Int) + ((-1) + 0))).sum = 0 := by
-    rw [sum_map_const]; simp
-  have z2 : (init.map fun _ => ((-1 : Int) + (1 + 0))).sum = 0 := by
-    rw [sum_map_const]; simp
-  rw [z1, z2]; rfl
-
-/-- The second-order schedule is a palindrome in (kind, position, duration) once the full step on
-    the last node is read as two adjacent half steps: the backward sweep is the mirror image of
-    the forward sweep. -/
-theorem second_palindromic (init : List Seg) (s : Seg) (last : Nat) (hadj : s.2 = last) :
-    let fwd := (init ++ [s]).flatMap (fun s => [Ev.site s.1 1, Ev.link s.1 s.2 (-1)])
-    let bwd := [Ev.link last s.1 (-1), Ev.site s.1 1]
-        ++ init.reverse.flatMap (fun t => [Ev.link t.2 t.1 (-1), Ev.site t.1 1])
-    bwd = fwd.reverse.map (fun e => match e with
-      | .link a b d => .link b a d
-      | e => e) := by
-  intro fwd bwd
-  simp only [fwd, bwd, List.flatMap_append, List.flatMap_cons, List.flatMap_nil, List.append_nil,
-    List.reverse_append, List.reverse_cons, List.reverse_nil, List.nil_append, List.map_append,
-    List.map_cons, List.map_nil, hadj]
-  congr 1
-  induction init with
-  | nil => rfl
-  | cons t rest ih =>
-    simp only [List.reverse_cons, List.flatMap_append, List.flatMap_cons, List.flatMap_nil,
-      List.append_nil, List.reverse_append, List.reverse_nil, List.nil_append, List.map_append,
-      List.map_cons, List.map_nil, ih]
-    simp
-
-/-! ### Second-order two-site -/
-
-theorem twoSite_defined (init : List Seg) (s : Seg) (last : Nat) :
-    twoSite (init ++ [s]) last = some
-      (init.flatMap (fun t => [Ev.two t.1 t.2 1, Ev.site t.2 (-1)])
-        ++ [Ev.two s.1 last 1]
-        ++ [Ev.two last s.1 1]
-        ++ init.reverse.flatMap (fun t => [Ev.site t.2 (-1), Ev.two t.2 t.1 1])) := by
-  simp [twoSite]
-
-/-- Every segment edge is evolved for `+dt` in total. -/
-theorem twoSite_edge_total (init : List Seg) (s : Seg) (last a b : Nat) (hadj : s.2 = last) :
-    ∃ tr, twoSite (init ++ [s]) last = some tr ∧
-      twoTotal a b tr = 2 * edgeCount a b (init ++ [s]) := by
-  refine ⟨_, twoSite_defined init s last, ?_⟩
-  simp only [twoTotal, tot_append, tot_flatMap, tot_cons, tot_nil, twoW, edgeCount,
-    sum_map_reverse]
-  simp only [List.map_append, List.sum_append, List.map_cons, List.map_nil, List.sum_cons,
-    List.sum_nil]
-  have e1 : (init.map fun t => (if sameEdge a b t.1 t.2 = true then (1 : Int) else 0) + (0 + 0)).sum
-      = (init.map fun t => if sameEdge a b t.1 t.2 = true then (1 : Int) else 0).sum := by
-    congr 1; apply List.map_congr_left; intro t _; simp
-  have e2 : (init.map fun t => (0 : Int) + ((if sameEdge a b t.2 t.1 = true then 1 else 0) + 0)).sum
-      = (init.map fun t => if sameEdge a b t.1 t.2 = true then (1 : Int) else 0).sum := by
-    congr 1; apply List.map_congr_left; intro t _
-    rw [sameEdge_symm a b t.2 t.1]; simp
-  rw [e1, e2, ← hadj, sameEdge_symm a b s.2 s.1]
-  by_cases h : sameEdge a b s.1 s.2 = true <;> simp [h] <;> omega
-
-/-- Every node is evolved for `-(degree - 1)·dt` in total, the degree being taken in the edge
-    list of the segments (the tree). -/
-theorem twoSite_site_total (init : List Seg) (s : Seg) (last v : Nat) (hadj : s.2 = last)
-    (hnd : (nodes (init ++ [s]) last).Nodup) (hv : v ∈ nodes (init ++ [s]) last) :
-    ∃ tr, twoSite (init ++ [s]) last = some tr ∧
-      siteTotal v tr = -2 * (degree v (init ++ [s]) - 1) := by
-  refine ⟨_, twoSite_defined init s last, ?_⟩
-  have h := indicator_nodes (init ++ [s]) last v 1
-  rw [sum_indicator_mem _ v 1 hnd hv] at h
-  simp only [siteTotal, tot_append, tot_flatMap, tot_cons, tot_nil, siteW, degree,
-    sum_map_reverse]
-  simp only [List.map_append, List.sum_append, List.map_cons, List.map_nil, List.sum_cons,
-    List.sum_nil] at h ⊢
-  have hdeg := sum_map_add (fun t : Seg => if t.1 = v then (1 : Int) else 0)
-    (fun t : Seg => if t.2 = v then (1 : Int) else 0) init
-  have e1 : (init.map fun t => (0 : Int) + ((if t.2 = v then -1 else 0) + 0)).sum
-      = -1 * (init.map fun t => if t.2 = v then (1 : Int) else 0).sum :=
-    sum_map_scale _ _ (-1) init (by intro t; by_cases h : t.2 = v <;> simp [h])
-  have e2 : (init.map fun t => (if t.2 = v then (-1 : Int) else 0) + (0 + 0)).sum
-      = -1 * (init.map fun t => if t.2 = v then (1 : Int) else 0).sum :=
-    sum_map_scale _ _ (-1) init (by intro t; by_cases h : t.2 = v <;> simp [h])
-  rw [e1, e2, hdeg]
-  rw [hadj]
-  by_cases h1 : s.1 = v <;> by_cases h2 : last = v <;> simp [h1, h2] at h ⊢ <;> omega
-
-theorem twoSite_sum (init : List Seg) (s : Seg) (last : Nat) :
-    ∃ tr, twoSite (init ++ [s]) last = some tr ∧ durTotal tr = 2 := by
-  refine ⟨_, twoSite_defined init s last, ?_⟩
-  simp only [durTotal, tot_append, tot_flatMap, tot_cons, tot_nil, Ev.dur, sum_map_reverse]
-  have z1 : (init.map fun _ => ((1 : Int) + ((-1) + 0))).sum = 0 := by
-    rw [sum_map_const]; simp
-  have z2 : (init.map fun _ => ((-1 : Int) + (1 + 0))).sum = 0 := by
-    rw [sum_map_const]; simp
-  rw [z1, z2]; rfl
-
-/-! ### Non-vacuity: a star with centre 0 and leaves 1,2,3 swept 1,2,3→…; chain 0-1-2 -/
-
-example : (nodes [(1, 0), (2, 0), (0, 3)] 3).Nodup ∧ ((0, 3) : Seg).2 = 3 := by decide
-example : siteTotal 0 (first [(1, 0), (2, 0), (0, 3)] 3) = 2 := by decide
-example : (second [(1, 0), (2, 0), (0, 3)] 3).map (linkTotal 0 2) = some (-2) := by decide
-example : (twoSite [(1, 0), (2, 0), (0, 3)] 3).map (siteTotal 0) = some (-4) := by decide
-example : degree 0 [(1, 0), (2, 0), (0, 3)] = 3 := by decide
-
-end Ptn.C05
+import Ptn.C05.Core
+import Ptn.C05.Tree
+/-! Property theorems for C05.  `Core.lean`: duration totals of the three schedules for arbitrary
+segment lists (per segment edge, under the hypotheses `Nodup` / last-two-adjacent).  `Tree.lean`:
+the same totals for every well-formed tree with the segments computed from the C17 model of the
+update path (`first_order_tree`, `second_order_tree`, `two_site_tree`) — no hypothesis about the
+segments left: every node of the tree, every edge of the tree. -/
